@@ -167,7 +167,7 @@ macro_rules! block_end {
             let got = simd::find_block_scalar_end(&b, $start, mi);
             let want = if $start >= $n { $n } else { spec_block_end(&b, $start, mi) };
             assert!(got == Some(want));
-            kani::cover!(want > $start + 1 && want < $n && mi == 2);
+            kani::cover!($start >= $n || (want > $start + 1 && want < $n && mi == 2));
             kani::cover!(want == $n);
         });
     };
@@ -243,7 +243,7 @@ classify!(c16_classify_n40_o0_cr_any, 40, 0, true, any_bool);
 #[cfg(not(feature = "scalar-yaml"))]
 classify!(c16_classify_n40_o8_nocr_any, 40, 8, false, any_bool);
 #[cfg(not(feature = "scalar-yaml"))]
-classify!(c16_classify_n40_o9_cr_any, 40, 9, true, any_bool);
+classify!(c16_classify_n48_o9_cr_any, 48, 9, true, any_bool);
 #[cfg(not(feature = "scalar-yaml"))]
 classify!(c16_classify_n40_o25_cr_any, 40, 25, true, any_bool);
 
